@@ -84,6 +84,8 @@ def Cst.orderOk : Cst → Bool
   | .lam _ _ _ _ _ b => b.orderOk
   | .un _ _ _ e => e.orderOk
   | .bin l _ _ _ _ _ r => l.orderOk && r.orderOk
+  | .ite _ _ c _ _ _ _ t _ _ _ _ e => c.orderOk && t.orderOk && e.orderOk
+  | .has e _ _ _ _ _ => e.orderOk
 /-- An `assert` renders its trailing trivia (`after`) between its `;` and its body: a comment that the
     enclosing sequence attaches to an `assert` item (any comment after it: top level, parentheses) comes
     out in front of the body (`C03.cex_comment_after_assert`). The value of a binding is rendered without
@@ -115,6 +117,8 @@ def Cst.orderOkSeq : Cst → Bool
   | .lam _ _ _ _ _ b => b.orderOkSeq
   | .un _ _ _ e => e.orderOkSeq
   | .bin l _ _ _ _ _ r => l.orderOkSeq && r.orderOkSeq
+  | .ite _ _ c _ _ _ _ t _ _ _ _ e => c.orderOkSeq && t.orderOkSeq && e.orderOkSeq
+  | .has e _ _ _ _ _ => e.orderOkSeq
 def Items.orderOkSeq : Items → Mode → Prev → Bool → Bool → Bool
   | .nil, _, _, _, _ => true
   | .cmt g _ rest, m, prev, pending, hasItem =>
@@ -174,6 +178,8 @@ def Expr.effAfter : Expr → Bool → List Trivia
   | .lam _ _ _ _ _ _ a, na => if na then [] else a
   | .un _ _ _ _ _ a, na => if na then [] else a
   | .bin _ _ _ _ _ _ a, na => if na then [] else a
+  | .ite _ _ _ _ _ _ _ _ _ _ _ _ _ _ _ a, na => if na then [] else a
+  | .has _ _ _ _ _ _ _ a, na => if na then [] else a
 
 def closedB (ts : List Trivia) : Bool :=
   match ts.getLast? with
@@ -203,6 +209,8 @@ def Expr.inlineCleanB : Expr → Bool
   | .un _ e _ _ _ _ => e.inlineCleanB
   -- at most one blank line in front of / after a binary operator (`cex_blank_lines_around_operator`)
   | .bin _ l r ogl rgl _ _ => decide (ogl ≤ 2) && decide (rgl ≤ 2) && l.inlineCleanB && r.inlineCleanB
+  | .ite c t e _ _ _ _ _ _ _ _ _ _ _ _ _ => c.inlineCleanB && t.inlineCleanB && e.inlineCleanB
+  | .has e _ _ _ _ _ _ _ => e.inlineCleanB
 def allInlineCleanB : List Expr → Bool
   | [] => true
   | e :: rest => e.inlineCleanB && allInlineCleanB rest
@@ -235,6 +243,8 @@ def Expr.beforeFlatB : Expr → Bool
   | .un _ e _ _ _ _ => e.beforeFlatB
   -- at most one blank line in front of / after a binary operator (`cex_blank_lines_around_operator`)
   | .bin _ l r ogl rgl _ _ => decide (ogl ≤ 2) && decide (rgl ≤ 2) && l.beforeFlatB && r.beforeFlatB
+  | .ite c t e _ _ _ _ _ _ _ _ _ _ _ _ _ => c.beforeFlatB && t.beforeFlatB && e.beforeFlatB
+  | .has e _ _ _ _ _ _ _ => e.beforeFlatB
 def allBeforeFlatB : List Expr → Bool
   | [] => true
   | e :: rest => e.beforeFlatB && allBeforeFlatB rest
@@ -260,6 +270,8 @@ def Expr.beforeFlatG : Expr → Bool
   | .lam _ _ _ _ body _ _ => body.beforeFlatG
   | .un _ e _ _ _ _ => e.beforeFlatG
   | .bin _ l r _ _ _ _ => l.beforeFlatG && r.beforeFlatG
+  | .ite c t e _ _ _ _ _ _ _ _ _ _ _ _ _ => c.beforeFlatG && t.beforeFlatG && e.beforeFlatG
+  | .has e _ _ _ _ _ _ _ => e.beforeFlatG
 def allBeforeFlatG : List Expr → Bool
   | [] => true
   | e :: rest => e.beforeFlatG && allBeforeFlatG rest
@@ -285,6 +297,8 @@ def Expr.beforeFlatP : Expr → Bool
   | .un _ e _ _ _ _ => e.beforeFlatP
   -- at most one blank line in front of / after a binary operator (`cex_blank_lines_around_operator`)
   | .bin _ l r ogl rgl _ _ => decide (ogl ≤ 2) && decide (rgl ≤ 2) && l.beforeFlatP && r.beforeFlatP
+  | .ite c t e _ _ _ _ _ _ _ _ _ _ _ _ _ => c.beforeFlatP && t.beforeFlatP && e.beforeFlatP
+  | .has e _ _ _ _ _ _ _ => e.beforeFlatP
 def allBeforeFlatP : List Expr → Bool
   | [] => true
   | e :: rest => e.beforeFlatP && allBeforeFlatP rest
@@ -306,6 +320,8 @@ def Cst.orderOkNA : Cst → Bool
   | .lam _ _ _ _ _ b => b.orderOkNA
   | .un _ _ _ e => e.orderOkNA
   | .bin l _ _ _ _ _ r => l.orderOkNA && r.orderOkNA
+  | .ite _ _ c _ _ _ _ t _ _ _ _ e => c.orderOkNA && t.orderOkNA && e.orderOkNA
+  | .has e _ _ _ _ _ => e.orderOkNA
 def Items.orderOkNA : Items → Mode → Prev → Bool → Bool → Bool
   | .nil, _, _, _, _ => true
   | .cmt g _ rest, m, prev, pending, hasItem =>
@@ -318,12 +334,13 @@ end
 
 def File.orderOkNA (f : File) : Bool := f.items.orderOkNA .file .none false false
 
-/-! ### the part of the fragment without `with` / `assert`
+/-! ### the part of the fragment without `assert`
 
 The theorems of C18 (spacing normal form) and C02 are proved for the files without `assert` and with
 at most one blank line after the colon of a lambda (`File.basic`: containers, parentheses, calls,
-`with`, select, `or`, lambda, unary and binary operators); C06 (fixed point of comment-free files)
-for all of these (`Cst.cf`: no `assert`, no `-` fused with a path); C01 and C03 cover the whole fragment. -/
+`with`, select, `or`, lambda, unary and binary operators, `if` / `then` / `else`, has-attr); C06 (fixed point of
+comment-free files) for all of these (`Cst.cf`: no `assert`, no `-` fused with a path); C01 and C03 cover the
+whole fragment. -/
 
 mutual
 def Cst.basic : Cst → Bool
@@ -339,6 +356,8 @@ def Cst.basic : Cst → Bool
   | .lam _ _ _ _ g2 b => decide (g2.count '\n' ≤ 2) && b.basic
   | .un _ _ _ e => e.basic
   | .bin l _ _ _ _ _ r => l.basic && r.basic
+  | .ite _ _ c _ _ _ _ t _ _ _ _ e => c.basic && t.basic && e.basic
+  | .has e _ _ _ _ _ => e.basic
 def Items.basic : Items → Bool
   | .nil => true
   | .cmt _ _ rest => rest.basic
@@ -358,6 +377,7 @@ def Cst.headLeaf : Cst → Option (LeafKind × Text)
   | .sel e _ _ _ _ => e.headLeaf
   | .selOr e _ _ _ _ _ _ _ _ => e.headLeaf
   | .bin l _ _ _ _ _ _ => l.headLeaf
+  | .has e _ _ _ _ _ => e.headLeaf
   | _ => none
 
 /-- a `-` written directly in front of the expression fuses with its first token into ONE path token
@@ -381,6 +401,9 @@ def Cst.cf : Cst → Bool
   | .lam _ c1 _ c2 _ b => c1.isEmpty && c2.isEmpty && b.cf
   | .un op c _ e => c.isEmpty && e.cf && !(op == ['-'] && e.fusesMinus)
   | .bin l c1 _ _ c2 _ r => l.cf && c1.isEmpty && c2.isEmpty && r.cf
+  | .ite c1 _ c c2 _ c3 _ t c4 _ c5 _ e =>
+    c.cf && t.cf && e.cf && c1.isEmpty && c2.isEmpty && c3.isEmpty && c4.isEmpty && c5.isEmpty
+  | .has e c1 _ c2 _ _ => e.cf && c1.isEmpty && c2.isEmpty
 def Items.cf : Items → Bool
   | .nil => true
   | .cmt _ _ _ => false
@@ -413,6 +436,12 @@ def blankGap (g : Text) : Text := if gapHasEmptyLineOffsets g then ['\n'] else [
 
 /-- line break, optional blank line, indentation -/
 def vgap (g : Text) (k : Nat) : Text := '\n' :: blankGap g ++ spaces k
+
+/-- one space, or a line break (one blank line kept) and the indentation read from the gap -/
+def sepGap (g : Text) : Text := if containsNL g then vgap g (indentFromGap g) else [' ']
+
+/-- the indentation of what follows a `sepGap` -/
+def sepIndent (g : Text) (i : Nat) : Nat := if containsNL g then indentFromGap g else i
 
 mutual
 /-- what the round trip makes of a comment-free tree whose first line is indented by `i` -/
@@ -477,6 +506,14 @@ def Cst.norm : Cst → Nat → Cst
     .bin (l.norm i) c1 (if g1.count '\n' = 0 then [' '] else List.replicate (g1.count '\n') '\n' ++ spaces i) op c2
       (if g2.count '\n' = 0 then [' '] else List.replicate (g2.count '\n') '\n' ++ spaces (binRightIndentC op r i))
       (r.norm (if g2.count '\n' = 0 then i else binRightIndentC op r i))
+  -- `if`, condition, `then`, consequence, `else`, alternative: each separated from what precedes it by one space or by a
+  -- line break (after one blank line if the source has one) and the indentation read from the gap (condition and
+  -- branches are then rendered at that indentation)
+  | .ite c1 g1 c c2 g2 c3 g3 t c4 g4 c5 g5 e, i =>
+    .ite c1 (sepGap g1) (c.norm (sepIndent g1 i)) c2 (sepGap g2) c3 (sepGap g3) (t.norm (sepIndent g3 i)) c4 (sepGap g4) c5
+      (sepGap g5) (e.norm (sepIndent g5 i))
+  -- expression, one space or a line break, `?`, one space or a line break, attrpath
+  | .has e c1 g1 c2 g2 attrs, i => .has (e.norm i) c1 (sepGap g1) c2 (sepGap g2) attrs
 /-- items of a container that spans several lines, one per line at indentation `j` -/
 def Items.normML : Items → Nat → Items
   | .nil, _ => .nil
